@@ -257,6 +257,24 @@ impl Parameter {
                 return false;
             }
         }
+        // The outer braces are only removed if they match each other,
+        // i.e. if the whole argument is a single group.
+        // For example {a}{b} is left untouched (TeX.2021.393).
+        let mut depth: usize = 0;
+        let mut i = 0;
+        while i + 1 < list.len() {
+            match list[i].value() {
+                token::Value::BeginGroup(_) => depth += 1,
+                token::Value::EndGroup(_) => {
+                    depth -= 1;
+                    if depth == 0 {
+                        return false;
+                    }
+                }
+                _ => (),
+            }
+            i += 1;
+        }
         true
     }
 
